@@ -90,10 +90,6 @@ theorem propLike_rel (m m' m1 : Meta) (rest : List SExp) (h : MRel KI m m') (hp 
                 exact kPROPS_I
       · cases hs
 
-theorem parseProperty_rel (m m' m1 : Meta) (ys : List SExp) (h : MRel KI m m') (hp : m.pfx = [S "EDIF"])
-    (hs : parseProperty m ys = .ok m1) : ∃ m1', parseProperty m' ys = .ok m1' ∧ MRel KI m1 m1' :=
-  propLike_rel _ _ _ _ (h.push "properties") (by simp [Meta.push, hp]) hs
-
 /-! ### the name of a construct does not look at what follows it -/
 
 theorem nameDef_rest (m m1 : Meta) (x : SExp) (rest r : List SExp) (h : nameDef m (x :: rest) = .ok (m1, r)) :
@@ -109,23 +105,106 @@ theorem nameDef_rest (m m1 : Meta) (x : SExp) (rest r : List SExp) (h : nameDef 
       refine ⟨h.2.symm, fun rest' => ?_⟩
       simp [hv, pure, Except.pure, h.1]
 
+/-! ### the owner of a kept property -/
+
+theorem propTail_kept (s s' : Bool) (ys : List SExp) (s1 : Bool) (_hr : True) (hnz : noiseIn ["owner"] ys = false)
+    (hs : propTail s ys = .ok s1) : ∃ s1', propTail s' (id ys) = .ok s1' ∧ True := by
+  simp only [noiseIn, List.any_cons, List.any_nil, Bool.or_false] at hnz
+  unfold propTail at hs ⊢
+  simp only [id, hnz, Bool.false_eq_true, if_false] at hs ⊢
+  peel hs
+  rename_i h1 h2 h3
+  simp only [h1, h2, h3, if_false]
+  exact ⟨s', rfl, trivial⟩
+
+theorem propLike_rel_owner (m m' m1 : Meta) (nm v : SExp) (tail : List SExp) (h : MRel KI m m')
+    (hp : m.pfx = [S "EDIF", S "properties"]) (hs : propLike m (nm :: v :: tail) = .ok m1) :
+    ∃ m1', propLike m' (nm :: v :: stripItems (noiseIn ["owner"]) id tail) = .ok m1' ∧ MRel KI m1 m1' := by
+  unfold propLike at hs ⊢
+  simp only [bind, Except.bind] at hs ⊢
+  split at hs
+  · cases hs
+  · rename_i w hv
+    obtain ⟨m2, r2⟩ := w
+    obtain ⟨m2', hv', hr2⟩ := nameDef_rel KI kN_I m m' m2 _ r2 h hv
+    obtain ⟨hr2eq, _⟩ := nameDef_rest _ _ _ _ _ hv
+    obtain ⟨_, hall'⟩ := nameDef_rest _ _ _ _ _ hv'
+    subst hr2eq
+    have hp2 : m2.pfx = [S "EDIF", S "properties"] := (nameDef_pfx _ _ _ _ hv).trans hp
+    have hp2' : m2'.pfx = [S "EDIF", S "properties"] := hr2.1 ▸ hp2
+    have hid : joinDot (m2.pfx ++ [S "identifier"]) = kPID := by rw [hp2]; decide
+    have hid' : joinDot (m2'.pfx ++ [S "identifier"]) = kPID := by rw [hp2']; decide
+    have hor : joinDot (m2.pfx ++ [S "original_identifier"]) = kPORIG := by rw [hp2]; decide
+    have hor' : joinDot (m2'.pfx ++ [S "original_identifier"]) = kPORIG := by rw [hp2']; decide
+    rw [hall']
+    simp only [hid, hid', hor, hor', hr2.2 kPID kPID_I, hr2.2 kPORIG kPORIG_I] at hs ⊢
+    cases hgi : m2.data.get? kPID with
+    | none => simp only [hgi, throw, throwThe, MonadExceptOf.throw] at hs; cases hs
+    | some iv =>
+      simp only [hgi, pure, Except.pure] at hs ⊢
+      cases v with
+      | atom a => cases hs
+      | list vs =>
+        simp only at hs ⊢
+        split at hs
+        · cases hs
+        · rename_i tv htv
+          split at hs
+          · cases hs
+          · rename_i lv hlv
+            obtain ⟨lb, lrest⟩ := lv
+            obtain ⟨lb', hlv', _⟩ := loopC_strip propTail (noiseIn ["owner"]) id (fun _ _ => True)
+              propTail_kept (fun _ _ _ _ _ _ _ => trivial) tail false false lb lrest trivial hlv
+            split at hs
+            · cases hs
+            · rename_i uv huv
+              simp only [Except.ok.injEq] at hs
+              subst hs
+              simp only [hlv', huv]
+              refine ⟨_, rfl, ?_⟩
+              cases hgo : m2.data.get? kPORIG with
+              | none =>
+                simp only
+                refine MRel.pop (appendAttr_rel KI _ _ _ ⟨hr2.1, sameOn_erase_both KI _ _ _ hr2.2⟩ ?_)
+                simp only [Meta.key, hp2]
+                exact kPROPS_I
+              | some o =>
+                simp only
+                refine MRel.pop (appendAttr_rel KI _ _ _ ⟨hr2.1, sameOn_erase_both KI _ _ _ (sameOn_erase_both KI _ _ _ hr2.2)⟩ ?_)
+                simp only [Meta.key, hp2]
+                exact kPROPS_I
+
+theorem headIs_stripProp (ys : List SExp) (k : String) : headIs (stripProp ys) k = headIs ys k := by
+  rcases ys with _ | ⟨a, _ | ⟨b, _ | ⟨c, d⟩⟩⟩ <;> rfl
+
+theorem parseProperty_rel (m m' m1 : Meta) (ys : List SExp) (h : MRel KI m m') (hp : m.pfx = [S "EDIF"])
+    (hs : parseProperty m ys = .ok m1) : ∃ m1', parseProperty m' (stripProp ys) = .ok m1' ∧ MRel KI m1 m1' := by
+  have hpp : (m.push "properties").pfx = [S "EDIF", S "properties"] := by simp [Meta.push, hp]
+  rcases ys with _ | ⟨kw, _ | ⟨nm, _ | ⟨v, tail⟩⟩⟩
+  · exact propLike_rel _ _ _ _ (h.push "properties") hpp hs
+  · exact propLike_rel _ _ _ _ (h.push "properties") hpp hs
+  · exact propLike_rel _ _ _ _ (h.push "properties") hpp hs
+  · exact propLike_rel_owner _ _ _ nm v tail (h.push "properties") hpp hs
+
 /-! ### instances -/
 
 def InstRel (m m' : Meta) : Prop := m.pfx = [S "EDIF"] ∧ MRel KI m m'
 
 theorem instItem_kept (m m' : Meta) (ys : List SExp) (m1 : Meta) (hr : InstRel m m')
     (hnz : noiseIn ["comment"] ys = false) (hs : instItem m ys = .ok m1) :
-    ∃ m1', instItem m' (id ys) = .ok m1' ∧ InstRel m1 m1' := by
+    ∃ m1', instItem m' (subInst ys) = .ok m1' ∧ InstRel m1 m1' := by
   simp only [noiseIn, List.any_cons, List.any_nil, Bool.or_false] at hnz
-  unfold instItem at hs ⊢
-  simp only [id, hnz, Bool.false_eq_true, if_false] at hs ⊢
+  unfold instItem at hs
+  simp only [hnz, Bool.false_eq_true, if_false] at hs
   split at hs
   · rename_i hprop
     obtain ⟨m1', h1, h2⟩ := parseProperty_rel m m' m1 ys hr.2 hr.1 hs
-    simp only [hprop, if_true]
-    refine ⟨m1', h1, ?_, h2⟩
-    have := parseProperty_sameK KO m m1 ys (by rw [hr.1]; exact ns_properties_O) hs
-    exact this.1.trans hr.1
+    have e : subInst ys = stripProp ys := by simp [subInst, hprop]
+    refine ⟨m1', ?_, ?_, h2⟩
+    · unfold instItem
+      simp only [e, headIs_stripProp, hprop, if_true, h1]
+    · have := parseProperty_sameK KO m m1 ys (by rw [hr.1]; exact ns_properties_O) hs
+      exact this.1.trans hr.1
   · peel hs
 
 theorem instItem_noise (m m' : Meta) (ys : List SExp) (m1 : Meta) (hr : InstRel m m')
@@ -180,7 +259,7 @@ theorem parseInstance_strip (sc sc' : Scope) (h : RelScope sc sc') (ys : List SE
                 · cases hs
                 · rename_i v3 hv3
                   obtain ⟨m3, rest3⟩ := v3
-                  obtain ⟨m3', hl', hrel⟩ := loopC_strip instItem (noiseIn ["comment"]) id InstRel
+                  obtain ⟨m3', hl', hrel⟩ := loopC_strip instItem (noiseIn ["comment"]) subInst InstRel
                     instItem_kept instItem_noise items m m m3 rest3 ⟨hpfx, MRel.refl KI m⟩ hv3
                   simp only at hs
                   split at hs
